@@ -46,6 +46,32 @@ fn sig_time(p: &rpm::Package) -> String {
     "-".into()
 }
 
+/// greatest c_mtime of the newc / crc entries of an uncompressed archive ("-" when the archive cannot be walked)
+fn max_cpio_mtime(arch: &[u8]) -> String {
+    let mut pos = 0usize;
+    let mut best = 0u64;
+    let hexf = |b: &[u8]| std::str::from_utf8(b).ok().and_then(|s| u64::from_str_radix(s, 16).ok());
+    loop {
+        if pos + 6 > arch.len() { return "-".into(); }
+        let magic = &arch[pos..pos + 6];
+        if magic == b"07070X" {
+            // stripped entry: no timestamp field; its size comes from the header, which we do not have here
+            return best.to_string();
+        }
+        if magic != b"070701" && magic != b"070702" { return "-".into(); }
+        if pos + 110 > arch.len() { return "-".into(); }
+        let f = |i: usize| hexf(&arch[pos + 6 + 8 * i..pos + 14 + 8 * i]);
+        let (mtime, fsize, nsize) = match (f(5), f(6), f(11)) { (Some(a), Some(b), Some(c)) => (a, b as usize, c as usize), _ => return "-".into() };
+        let name_end = pos + 110 + nsize;
+        if name_end > arch.len() || nsize == 0 { return "-".into(); }
+        let name = &arch[pos + 110..name_end - 1];
+        if name == b"TRAILER!!!" { return best.to_string(); }
+        best = best.max(mtime);
+        let data = (name_end + 3) & !3;
+        pos = (data + fsize + 3) & !3;
+    }
+}
+
 fn observe(tokens: &[&str]) -> String {
     let now: u32 = tokens.iter().find_map(|t| t.strip_prefix("now=")).and_then(|x| x.parse().ok()).unwrap_or(1_700_000_000);
     let mut all: Vec<Vec<u8>> = Vec::new();
@@ -83,11 +109,12 @@ fn observe(tokens: &[&str]) -> String {
     let comp = tokens.iter().find_map(|t| t.strip_prefix("c=")).unwrap_or("zstd:19");
     let arch = decompress(comp.split(':').next().unwrap(), &first[pl..]);
     let mt = p.metadata.get_file_entries().map(|v| v.iter().map(|f| f.modified_at.0).max().unwrap_or(0)).unwrap_or(0);
+    let cmt = arch.as_ref().map(|a| max_cpio_mtime(a)).unwrap_or("-".into());
     format!(
-        "ok paysha={} archsha={} runs={} distinct={} hdr={:016x} bt={} mt={} st={}",
+        "ok paysha={} archsha={} runs={} distinct={} hdr={:016x} bt={} mt={} st={} cmt={}",
         sha256_hex(&first[pl..]), arch.map(|a| sha256_hex(&a)).unwrap_or("undecodable".into()),
         ids.len(), distinct.len(), fnv(&first[h..pl]),
-        p.metadata.get_build_time().map(|x| x.to_string()).unwrap_or("-".into()), mt, sig_time(&p)
+        p.metadata.get_build_time().map(|x| x.to_string()).unwrap_or("-".into()), mt, sig_time(&p), cmt
     )
 }
 
